@@ -113,7 +113,7 @@ def verify_function(repo, qualname, timeout_ms=20000, cfg_symbols=(), want_model
             continue
         if ob.expect == 'not-unsat-strong':
             # vacuity guard that must also withstand MBQI (a refutation found only with MBQI once hid a vacuous loop proof)
-            discharge(ob, axioms, timeout_ms=8000, want_model=False, retry=True)
+            discharge(ob, axioms, timeout_ms=2000, want_model=False, retry=True, cover=True)
             ob.expect = 'not-unsat'
         elif ob.expect == 'not-unsat':
             discharge(ob, axioms, timeout_ms=min(timeout_ms, 3000), want_model=False, retry=False)
